@@ -285,6 +285,22 @@ def _obs_var(L, stores, org):
     top = max(pool.values())
     best = sorted(nm for nm, v in pool.items() if v == top)
     if len(best) > 1:
+        # a variable all of whose definitions are (wrapped) copies of another candidate is a carried copy of that candidate (a device copy,
+        # a cast): the candidate it is copied from is the observation variable
+        def copy_of(nm):
+            srcs = set()
+            for n in cfg.nodes:
+                for d in n.defs:
+                    if d.name != nm or d.kind == "param":
+                        continue
+                    b = strip_wrappers(d.value) if d.kind in ("assign", "walrus") and isinstance(d.value, ast.AST) and not isinstance(d.value, ast.stmt) else None
+                    if not isinstance(b, ast.Name) or b.id == nm:
+                        return None
+                    srcs.add(b.id)
+            return srcs
+        primary = [nm for nm in best if not ((copy_of(nm) or set()) and (copy_of(nm) or set()) <= (set(cands) | {L.pos.get(0)}) - {nm})]
+        if len(primary) == 1:
+            return primary[0]
         raise AnalysisError(f"{L.qual}: several variables {best} could hold the current observation (unrecognised form)")
     return best[0]
 
@@ -708,7 +724,17 @@ def run(ck, repo: Repo, tier: str):
                   "" if kept is None else f"after `{short(cfg.nodes[kept[0]].ast, 40)}` the action `{avar}` passed to env.step is not computed again (copies of {sorted(closure)} only): "
                   f"the first action of the new episode was chosen for the previous episode's last observation",
                   loc(L.mi, L.step_stmt), cfg.describe_path(kept[1]) if kept else None)
-        if not pol and not succ and kept is None:
+        carried = None
+        if not pol and not succ:
+            carried = _carried_policy_input(cfg, L, org, avar, body, bound_resets)
+            for V, at_, stale_reset in (carried or []):
+                anchored[0] = True
+                ok_v = stale_reset is None
+                ck.ob("R4-act-on-current", site, f"policy-input-refreshed-after-reset:{V}", ok_v,
+                      f"the policy reads `{V}`, a carried copy of the observation (origins: reset()[0] / step()[0])",
+                      "" if ok_v else f"after `{short(cfg.nodes[stale_reset[0]].ast, 40)}` no definition gives `{V}` the reset observation before the policy reads it: the first action of "
+                      f"the new episode is conditioned on the previous episode's final observation", loc(L.mi, cfg.nodes[at_].ast), cfg.describe_path(stale_reset[1]) if stale_reset else None)
+        if not pol and not succ and kept is None and not carried:
             und(f"{site}: no definition of the action `{avar}` made in the same iteration before env.step reads the observation variable `{ovar}` (the observation reaches the policy in an unrecognised form)")
         for name, at, expr in used:
             node = cfg.nodes[at]
@@ -764,6 +790,46 @@ def _defs_between(cfg: CFG, a: int, b: int, name: str):
     return sorted(out)
 
 
+def _carried_policy_input(cfg, L, org, avar, body, bound_resets, depth=4):
+    """The policy does not read the observation variable itself but another variable that carries the observation (e.g. a device copy
+    refreshed from the step result).  [(name, node of the reading definition, None | (reset node, path))]: for every in-loop reset that binds
+    the observation, a path from the reset to the reading definition on which the variable never receives that reset's observation is a
+    witness that the policy sees the previous episode's last successor.  None when no such variable is found (not read)."""
+    H, S = L.loop_header, L.step_node
+    pre_S = {n.id for n in cfg.nodes if n.id in body and n.id != S and cfg.paths_avoiding(n.id, S, {H}) is not None}
+    work = [(d, 0) for d in cfg.defs_of(S, avar) if d.node in pre_S]
+    seen, found = set(), {}
+    while work:
+        d, k = work.pop()
+        if (d.node, d.name) in seen or d.value is None:
+            continue
+        seen.add((d.node, d.name))
+        val = d.value.value if isinstance(d.value, ast.AugAssign) else d.value
+        for x in ast.walk(val):
+            if not (isinstance(x, ast.Name) and isinstance(x.ctx, ast.Load)):
+                continue
+            o = org.of_name(x.id, d.node)
+            if o and not Origins.unknown(o) and all((y[0] == "reset" and y[1] == 0) or y == ("step", 0) for y in o) and ("step", 0) in o:
+                found.setdefault(x.id, d.node)
+            elif k < depth:
+                for d2 in cfg.defs_of(d.node, x.id):
+                    if d2.node in pre_S and d2.kind in ("assign", "unpack"):
+                        work.append((d2, k + 1))
+    if not found:
+        return None
+    out = []
+    for V, at_ in sorted(found.items()):
+        stale = None
+        for r, r_from in bound_resets:
+            refresh = {n.id for n in cfg.nodes for d in n.defs if d.name == V and ("reset", 0, r) in org.of_def(d, set())}
+            pth = cfg.paths_avoiding(r_from, at_, refresh | {S})
+            if pth is not None:
+                stale = (r, pth)
+                break
+        out.append((V, at_, stale))
+    return out
+
+
 def _obs_uses_in_action(cfg, L, avar, ovar, nextvar, body, depth=4):
     """Backward slice from the action reaching env.step: (obs-like name, node, expr) uses."""
     out, seen = [], set()
@@ -796,6 +862,7 @@ def _obs_uses_in_action(cfg, L, avar, ovar, nextvar, body, depth=4):
 # ---- self-validation variants (thorough tier) ------------------------------------------------------------
 _TD3 = "rl_blox/algorithm/td3.py"
 MUTANTS = [
+    {"id": "c01-td3-device-copy-not-refreshed-at-reset", "file": _TD3, "rule": "R4", "edits": [('    obs, _ = env.reset(seed=seed)\n', '    obs, _ = env.reset(seed=seed)\n    obs_dev = jnp.asarray(obs)\n'), ('_sample_actions(policy, jnp.asarray(obs), action_key)', '_sample_actions(policy, obs_dev, action_key)'), ('        next_obs, reward, termination, truncated, info = env.step(action)\n', '        next_obs, reward, termination, truncated, info = env.step(action)\n        obs_dev = jnp.asarray(next_obs)\n')]},
     {"id": "c01-td3-carry-before-store", "file": _TD3, "rule": "R2",
      "find": "        steps_per_episode += 1\n        accumulated_reward += reward\n\n        replay_buffer.add_sample(",
      "replace": "        steps_per_episode += 1\n        accumulated_reward += reward\n        obs = next_obs\n\n        replay_buffer.add_sample("},
@@ -829,6 +896,7 @@ MUTANTS = [
     {"id": "c01-ddpg-stale-sometimes", "file": "rl_blox/algorithm/ddpg.py", "rule": "R3", "find": "        else:\n            obs = next_obs\n\n    return namedtuple(\n        \"DDPGResult\"", "replace": "        elif steps_per_episode % 7 != 0:\n            obs = next_obs\n\n    return namedtuple(\n        \"DDPGResult\""},
 ]
 BENIGN = [
+    {"id": "c01-b-td3-device-copy-refreshed-at-reset", "file": _TD3, "edits": [('    obs, _ = env.reset(seed=seed)\n', '    obs, _ = env.reset(seed=seed)\n    obs_dev = jnp.asarray(obs)\n'), ('_sample_actions(policy, jnp.asarray(obs), action_key)', '_sample_actions(policy, obs_dev, action_key)'), ('        next_obs, reward, termination, truncated, info = env.step(action)\n', '        next_obs, reward, termination, truncated, info = env.step(action)\n        obs_dev = jnp.asarray(next_obs)\n'), ('            obs, _ = env.reset()\n', '            obs, _ = env.reset()\n            obs_dev = jnp.asarray(obs)\n')]},
     {"id": "c01-b-ddpg-elif-not-truncated", "file": "rl_blox/algorithm/ddpg.py", "find": "        else:\n            obs = next_obs\n\n    return namedtuple(\n        \"DDPGResult\"", "replace": "        elif not truncated:\n            obs = next_obs\n\n    return namedtuple(\n        \"DDPGResult\""},
     {"id": "c01-b-td3-ifexp-carry", "file": _TD3, "find": "        else:\n            obs = next_obs\n\n        bar.update()", "replace": "        else:\n            obs = np.asarray(next_obs)\n\n        bar.update()"},
     {"id": "c01-b-td3-rename", "file": _TD3, "all": True, "find": "next_obs", "replace": "succ_observation"},
